@@ -248,6 +248,34 @@ func runC06Corpus(r *vlib.Run, env *vfrac.Env, ds []c06Doc, only *c06Case) {
 					if failed {
 						continue
 					}
+					// the scan direction is not part of a histogram or an aggregation: the ascending request must give,
+					// fraction by fraction, what the descending one gives (which is judged against the reference below)
+					for fi, a := range fracs {
+						pa := p
+						pa.Order = seq.DocsOrderAsc
+						qa, err := vfrac.Search(a, pa)
+						r.Add("evaluations", 1)
+						if err != nil {
+							r.Violation(fmt.Sprintf("search-error-asc docs=%v part=%v q=%s", ds, part, pq.Text), c06Case{Docs: ds, Part: part, Query: pq.Text, Hist: hi}, err.Error())
+							continue
+						}
+						if g, w := canonHist(qa.Histogram), canonHist(parts[fi].Histogram); g != w || qa.Total != parts[fi].Total {
+							r.Violation(fmt.Sprintf("hist-asc-differs docs=%v part=%v q=%s interval=%d frac=%d", ds, part, pq.Text, hi, fi), c06Case{Docs: ds, Part: part, Query: pq.Text, Hist: hi}, fmt.Sprintf("asc [%s] total %d, desc [%s] total %d", g, qa.Total, w, parts[fi].Total))
+						}
+						if hi == hists[0] {
+							args := make([]seq.AggregateArgs, len(specs))
+							for i, s := range specs {
+								args[i] = seq.AggregateArgs{Func: c06Funcs[s.Func], Quantiles: s.Quantiles, SkipWithoutTimestamp: s.Interval > 0}
+							}
+							ra, rd := cloneQPR(qa).Aggregate(args), cloneQPR(parts[fi]).Aggregate(args)
+							for i := range specs {
+								if g, w := canonRealAgg(ra[i]), canonRealAgg(rd[i]); g != w {
+									sp := specs[i]
+									r.Violation(fmt.Sprintf("agg-asc-differs docs=%v part=%v q=%s range=%d spec=%s frac=%d", ds, part, pq.Text, ri, vlib.JSON(sp), fi), c06Case{Docs: ds, Part: part, Query: pq.Text, Agg: &sp, Range: ri}, fmt.Sprintf("asc  %s\ndesc %s", g, w))
+								}
+							}
+						}
+					}
 					wantHist := canonRefHist(refdb.Histogram(docs, pq.Ref, rg[0], rg[1], hi))
 					for name, m := range mergeTrees(parts, len(specs), hi) {
 						r.Add("evaluations", 1)
